@@ -349,6 +349,36 @@ def cert_case(ctx, begin):
                 want = kp + begin.to_bytes(4, 'big') + end.to_bytes(4, 'big') + (b'\xff' if can else b'\x00') + sigb
                 if p != want or (c2.delegate_pubkey, c2.begin_ts, c2.end_ts, c2.can_further_delegate, c2.signature) != (kp, begin, end, can, sigb):
                     ctx.violation({'clause': 'certificate pack/unpack round trip'}, f'{begin} {end} {can}: {p.hex()}')
+    # object histories: a certificate issued by the builder (which already asked it for its preimage), then one field edited:
+    # preimage / pack / the witness builders follow the object's current fields, nothing is remembered from before
+    seed = ctx.seed
+    sk, pk = keys(seed)
+    for field_, newval in ((('begin_ts', begin + 1), ('end_ts', begin + 7), ('can_further_delegate', False),
+                            ('delegate_pubkey', pk['d2']), ('signature', b'\x07' * 64)) if begin + 7 < 2 ** 31 else ()):
+        n += 1
+        c = T.make_delegate_key_cert(sk['root'], pk['d1'], begin, begin + 5, True)
+        c.preimage(); c.pack()
+        try:
+            setattr(c, field_, newval)
+        except BaseException:
+            continue                      # an immutable certificate cannot go stale
+        ctx.state(('cert-history', begin, field_))
+        try:
+            pre, packed = c.preimage(), c.pack()
+            c2 = Cert.unpack(packed)
+        except BaseException as e:
+            if field_ in ('begin_ts', 'end_ts') and not 0 <= newval < 2 ** 31:
+                continue
+            ctx.violation({'clause': 'certificate pack/unpack round trip', 'how': 'raises', 'history': 'field edited after issuing'},
+                          f'{field_} <- {newval!r}: {e!r}')
+            continue
+        ctx.ran(3)
+        want_pre = c.delegate_pubkey + c.begin_ts.to_bytes(4, 'big') + c.end_ts.to_bytes(4, 'big') + (b'\xff' if c.can_further_delegate else b'\x00')
+        now_ = (c2.delegate_pubkey, c2.begin_ts, c2.end_ts, c2.can_further_delegate, c2.signature)
+        if pre != want_pre or packed != want_pre + c.signature or \
+                now_ != (c.delegate_pubkey, c.begin_ts, c.end_ts, c.can_further_delegate, c.signature):
+            ctx.violation({'clause': 'certificate pack/unpack round trip', 'history': 'field edited after issuing'},
+                          f'begin {begin}: {field_} <- {newval!r}: preimage {pre.hex()} packed {packed.hex()[:90]}')
     for bad in (-1, 2 ** 31, 2 ** 32):
         for which in ('begin', 'end'):
             n += 1
@@ -378,7 +408,7 @@ def blocks(tier, seed):
         Block('custom_slack_threshold', [(n, thr) for n in range(0, 4 if q else 6) for thr in (10, 300, 61, 0, -1)], threshold_case,
               'single and chain locks (length 1..%d) through run_script with additional_flags ts_threshold in {10, 61, 300, 0, -1} x clock '
               'positions around it' % (3 if q else 5), nshards=32),
-        Block('certificate_serialisation', VALS, cert_case, 'begin x end over boundary values x flag x key patterns', nshards=len(VALS)),
+        Block('certificate_serialisation', VALS, cert_case, 'begin x end over boundary values x flag x key patterns; issued certificates with one field edited afterwards', nshards=len(VALS)),
     ]
 
 
